@@ -420,6 +420,14 @@ package dag
 //@   ensures [C19 no_eval_no_effect] opts.noEval ==> (eff.exec == old(eff.exec) && eff.env == old(eff.env))
 //@   ensures [C13 error_or_dag] err == nil ==> d != nil
 
+// Load: the DAG as it is run (start, retry, restart) — built from the file with exactly the given parameter text.
+//@ fn Load(base, dag, params) (d, err)
+//@   props C10 C11 C13
+//@   safety
+//@   modifies heap(alloc), heap(map(string, any)), heap(elems(any)), ghost eff.exec, ghost eff.env, ghost env.key, ghost env.val, ghost obs.exists_calls, ghost obs.exists, ghost obs.exists_path, ghost obs.stat_err, ghost obs.stat_path
+//@   ensures [C13 error_or_dag] err == nil ==> d != nil
+//@   assert before loadDAG [C11 given_parameters_reach_the_builder] arg0 == dag && arg1.parameters == params && arg1.base == base && !arg1.noEval && !arg1.metadataOnly
+
 //@ fn LoadWithoutEval(dag) (d, err)
 //@   props C13 C19
 //@   safety
